@@ -390,7 +390,8 @@ def handle (toks : List String) : String :=
         (match cliCompute cfg with
         | .ok days =>
           let js := renderRange days
-          s!"{js.utf8ByteSize} {hexOfBits (fnv1a js).toNat}"
+          let jc := renderRangeCanon days
+          s!"J {js.utf8ByteSize} {hexOfBits (fnv1a js).toNat} {jc.utf8ByteSize} {hexOfBits (fnv1a jc).toNat}"
         | .error e => showPanic e)
       | _, _ => bad)
     | _, _ => bad
